@@ -1546,7 +1546,7 @@ struct array : static_array<T, D, Alloc> {
 		auto const is = intersection(this->extensions(), extensions);
 		if(is.num_elements() != 0) {  // an empty common part has nothing to keep (and zero extents are not sliceable)
 			try {
-				tmp.apply(is) = this->apply(is);  // TODO(correaa) : use (and implement) `.move();`
+				tmp.apply(is).elements() = this->apply(is).elements();  // same index ranges, but each view keeps its parent's index base  // TODO(correaa) : use (and implement) `.move();`
 			} catch(...) { release_tmp(true); throw; }
 		}
 		this->destroy();
@@ -1591,7 +1591,7 @@ struct array : static_array<T, D, Alloc> {
 		auto const is = intersection(this->extensions(), exs);
 		if(is.num_elements() != 0) {  // an empty common part has nothing to keep (and zero extents are not sliceable)
 			try {
-				tmp.apply(is) = this->apply(is);
+				tmp.apply(is).elements() = this->apply(is).elements();  // same index ranges, but each view keeps its parent's index base
 			} catch(...) { release_tmp(true); throw; }
 		}
 		this->destroy();
